@@ -397,10 +397,56 @@ def w3_concurrent_builds(col, rng, cidx, jobref):
     col.hashes.add(S.spec_hash({"b": [S.render(sp) for sp in specs]}))
 
 
+def enable_yield_injection(prob, seed):
+    """Forced pre-emption at statement boundaries of tawazi's build / scheduling code (sys.monitoring LINE events):
+    with probability `prob` the running thread yields (time.sleep(0)). Explores interleavings the OS scheduler rarely picks."""
+    import importlib
+    import types
+
+    mon = getattr(sys, "monitoring", None)
+    if mon is None:
+        return 0
+    tool = 4
+    try:
+        mon.use_tool_id(tool, "twz-yield")
+    except ValueError:
+        return 0
+    rnd = random.Random(seed)
+    hits = [0]
+
+    def on_line(code, line):
+        if rnd.random() < prob:
+            hits[0] += 1
+            time.sleep(0)
+
+    mon.register_callback(tool, mon.events.LINE, on_line)
+    n = 0
+    for name in ("tawazi.node.node", "tawazi._dag.constructor", "tawazi._dag.dag", "tawazi._dag.helpers", "tawazi.node.functions", "tawazi._dag.digraph"):
+        mod = importlib.import_module(name)
+        objs = list(vars(mod).values())
+        for o in list(objs):
+            if isinstance(o, type) and o.__module__ == name:
+                objs.extend(vars(o).values())
+        for o in objs:
+            f = getattr(o, "__func__", o)
+            f = getattr(f, "fget", f) if isinstance(f, property) else f
+            if isinstance(f, types.FunctionType) and f.__module__ == name:
+                try:
+                    mon.set_local_events(tool, f.__code__, mon.events.LINE)
+                    n += 1
+                except Exception:  # noqa: BLE001
+                    pass
+    enable_yield_injection.hits = hits
+    return n
+
+
 @job("conc16")
 def job_conc16(j):
     rng = random.Random(j["seed"])
     col = Collector()
+    if j.get("yield_inject"):
+        nf = enable_yield_injection(float(j["yield_inject"]), j["seed"])
+        col.counters["c16_functions_with_yield_injection"] += nf
     if j.get("lockset", True):
         LOCKSET.install()
     for c in range(j["n_cases"]):
@@ -424,6 +470,8 @@ def job_conc16(j):
                     {"kind": "rerun_job", "job": dict(j, n_cases=c + 1)})
             else:
                 raise
+    if j.get("yield_inject"):
+        col.counters["c16_injected_yields"] += getattr(enable_yield_injection, "hits", [0])[0]
     if LOCKSET.installed:
         col.counters["c16_lockset_touches_checked"] += LOCKSET.touches
         seen = Counter(LOCKSET.reports)
@@ -459,9 +507,11 @@ class LoopWatch:
             await asyncio.sleep(0.0005)
 
     def ask(self, timeout=5.0):
+        if self.stop:
+            return True
         ev = threading.Event()
         self.q.put(ev)
-        if ev.wait(timeout):
+        if ev.wait(timeout) or self.stop:
             return True
         samples = []
         for _ in range(20):
@@ -629,10 +679,125 @@ def a17_case(col, rng, cidx, jobref):
                 col.inconclusive.append("liveness handshake timed out but the loop thread was not inside tawazi: %s" % dict(c))
         if res[0] != "ok":
             col.counters["c17_liveness_run_raised"] += 1
+    # ---- (4) the same HISTORY on one DAG object and on one AsyncDAG object (calls interleaved with reconfiguration) ------
+    from tawazi.config import cfg as tcfg
+
+    sp5 = sched.gen_shape(rng, nmin=3, nmax=7, mc_max=1, flags=False, reuse=False, pri="pow10", seq_rate=0.1)
+    sp5["mc"] = 1
+    g5 = S.site_graph(sp5)
+    dbg = set()
+    for i in range(len(sp5["nodes"])):
+        if any(q in dbg for q in g5.predecessors(i)) or rng.random() < 0.25:
+            dbg.add(i)
+            sp5["fns"][sp5["nodes"][i]["fn"]]["debug"] = True
+    ids5 = S.node_ids(sp5)
+    plain5 = S.make_fns(sp5)
+    steps5 = []
+    for _q in range(rng.randint(2, 4)):
+        r5 = rng.random()
+        if r5 < 0.4:
+            steps5.append(("toggle_debug", None))
+        else:
+            # a fresh power of ten keeps compound priorities tie-free, so the order at max_concurrency=1 stays unique
+            i = rng.randrange(len(ids5))
+            steps5.append(("config", {"nodes": {ids5[i]: {"priority": 10 ** (len(ids5) + 1 + _q)}}}))
+    traces = {}
+    old_dbg = tcfg.RUN_DEBUG_NODES
+    for fl in (False, True):
+        tcfg.RUN_DEBUG_NODES = False
+        try:
+            d5, _e, _p = S.build_tawazi(dict(sp5, is_async=fl), plain=plain5)
+            tr = []
+            a5 = [Sym("arg", cidx, "h")]
+
+            def call5():
+                B.reset_log()
+                B.Settings.controlled = False
+                B.Settings.stress_sleep = 0.0
+                r = probes.run_op("call", (lambda: asyncio.run(_await(d5, a5))) if fl else (lambda: d5(*a5)))
+                lg = B.snapshot()
+                return (r[0], [e["node"] for e in lg if e["kind"] == "FENTER"], short(r[1], 200))
+
+            tr.append(call5())
+            for kind5, arg5 in steps5:
+                if kind5 == "toggle_debug":
+                    tcfg.RUN_DEBUG_NODES = not tcfg.RUN_DEBUG_NODES
+                else:
+                    d5.config_from_dict(arg5)
+                tr.append(call5())
+            traces[fl] = tr
+        finally:
+            tcfg.RUN_DEBUG_NODES = old_dbg
+    col.evaluations += 1
+    col.counters["c17_history_pairs"] += 1
+    if traces.get(False) != traces.get(True):
+        k5 = next(i for i, (x, y) in enumerate(zip(traces[False], traces[True])) if x != y)
+        col.violation(pid, "asyncdag_diverges_from_dag_after_reconfiguration_history", dict(
+            history=S.jsonable(steps5), first_difference_at_call=k5, dag=S.jsonable(traces[False][k5]), asyncdag=S.jsonable(traces[True][k5]),
+            source=S.render(sp5), debug=[ids5[i] for i in sorted(dbg)]), rp)
+    # ---- (5) the loop stays free when one async-thread node FAILS while a sibling is still running --------------------------
+    lw2 = LoopWatch()
+    failed_evt = threading.Event()
+
+    def mk_f(name, role):
+        base = probes.mkprobe(name)
+
+        def fn(*a, **k):
+            if getattr(B.TLS, "ref", False):
+                return base(*a, **k)
+            if role == "fail":
+                time.sleep(0.02)
+                failed_evt.set()
+                raise probes.Injected(name)
+            ok1 = lw2.ask(jobref.get("live_timeout", 5.0))
+            failed_evt.wait(5.0)
+            time.sleep(0.05)
+            ok2 = lw2.stop or lw2.ask(jobref.get("live_timeout", 5.0))
+            B.ev("LIVE", token=B.cur_token(), node=name, served=bool(ok1 and ok2))
+            return base(*a, **k)
+
+        fn.__name__ = fn.__qualname__ = name
+        return fn
+
+    from tawazi import Resource, dag, xn
+
+    f_fail = xn(resource=Resource.async_thread, priority=5)(mk_f("lf_fail", "fail"))
+    f_run = xn(resource=Resource.async_thread, priority=1)(mk_f("lf_run", "run"))
+
+    def live_fail_prog(x):
+        a = f_run(x)
+        b = f_fail(x)
+        return a, b
+
+    d6 = dag(max_concurrency=2, is_async=True)(live_fail_prog)
+    B.reset_log()
+
+    async def main6():
+        sib = asyncio.ensure_future(lw2.sibling())
+        try:
+            return await d6(Sym("arg", cidx, "lf"))
+        finally:
+            lw2.stop = True
+            try:
+                while True:
+                    lw2.q.get_nowait().set()
+            except queue.Empty:
+                pass
+            await sib
+
+    res6 = probes.run_op("await_failing_with_sibling", lambda: asyncio.run(main6()))
+    col.evaluations += 1
+    col.counters["c17_liveness_under_failure_cases"] += 1
+    if res6[0] == "ok":
+        col.violation(pid, "await_returned_normally_although_node_failed", dict(value=short(res6[1])), rp)
     col.hashes.add(S.spec_hash({"s": S.render(sp), "k": K, "l": S.render(sp4)}))
     if cidx % 15 == 0:
         col.sample(dict(source=S.render(sp), setup=[ids[i] for i in sorted(setup)], concurrent_awaits=K, liveness_program=S.render(sp4),
                         handshakes_served=lw.served))
+
+
+async def _await(f, args):
+    return await f(*args)
 
 
 @job("async17")
